@@ -112,6 +112,11 @@ func (m *ModelServer) ListPublications(_ context.Context, request *traits.ListPu
 	pageSize := capPageSize(int(request.GetPageSize()))
 
 	sortedItems := m.model.ListPublications()
+	// The collection lists by the id an item is stored under; with a resource.WithIDInterceptor that is not the
+	// order of the Id field the page token is searched by: establish the order the search below relies on.
+	sort.Slice(sortedItems, func(i, j int) bool {
+		return sortedItems[i].Id < sortedItems[j].Id
+	})
 	nextIndex := 0
 	if lastKey != "" {
 		nextIndex = sort.Search(len(sortedItems), func(i int) bool {
